@@ -37,7 +37,19 @@ def main() -> int:
             return 0
         lib.ensure_built()
         lib.recheck_proofs(ctx, coq_args=getattr(mod, 'COQ_ARGS', ()))
-        mod.run(ctx)
+        try:
+            mod.run(ctx)
+        except Exception as e:  # noqa: BLE001
+            # The harness could not observe the implementation the way the model describes it (a table changed its
+            # shape, an output could not be rendered, the model could not be evaluated on it ...). The correspondence is
+            # then not established for this tree: by DESIGN.md section 6 that is reported, never swallowed.
+            tb = traceback.format_exc()
+            print(f'HARNESS-EXCEPTION property={prop}:\n{tb}', file=sys.stderr)
+            ctx.extra['harness_exception'] = tb[-3000:]
+            if not ctx.violations:
+                ctx.violation('correspondence could not be established: the harness failed while observing the implementation '
+                              f'({type(e).__name__}: {str(e)[:300]})',
+                              {'correspondence': f'{prop}/harness', 'traceback': tb[-4000:]}, found=False)
     except lib.InternalError as e:
         status = 'internal-error'
         print(f'INTERNAL-ERROR property={prop}: {e}', file=sys.stderr)
